@@ -1,6 +1,6 @@
 (* C15 - replication eventually delivers every commit, across outages. *)
 From Coq Require Import List Arith Bool.
-From Verif Require Import Replicate ReplicateProofs.
+From Verif Require Import Replicate ReplicateProofs ReplicateRetry.
 Import ListNotations.
 
 (* over every history of writes, outages of the target, restarts of the source and retry rounds: every document is
@@ -17,6 +17,20 @@ Theorem C15_eventually_delivered : forall es,
   ((forall d, has s d = head s d) /\ retry s = []).
 Proof. exact eventually_delivered. Qed.
 Print Assumptions C15_eventually_delivered.
+
+(* the same with retry rounds that take time and a source that may be restarted while a round is in flight: once B is
+   reachable, the next firing of the retry loop and the end of its round deliver everything (marks cleared at start) *)
+Theorem C15_eventually_delivered_with_interrupted_rounds : forall es,
+  delivered (base (rrun true rinit (es ++ [RUp; RTickBegin; RTickEnd]))).
+Proof. exact eventually_delivered_interruptible. Qed.
+Print Assumptions C15_eventually_delivered_with_interrupted_rounds.
+
+(* ... and with the mark left in the store a restart during a round blocks that replicator for ever *)
+Theorem C15_persisted_mark_refuted : forall n,
+  let s := rrun false rinit (stuck_history ++ concat (repeat [RTickBegin; RTickEnd] n)) in
+  up (base s) = true /\ has (base s) 0 <> head (base s) 0.
+Proof. exact persisted_mark_refuted. Qed.
+Print Assumptions C15_persisted_mark_refuted.
 
 Example C15_example :
   let s := run init [Write 0; Down; Write 0; Write 1; Tick; ARestart; Write 1; Up; Tick] in
